@@ -420,7 +420,9 @@ def emit_typedef(prog, t, bodies, ind="    "):
         out.append("%s}\n" % ind)
     else:
         out.append("%s#[diplomat::opaque]\n" % ind)
-        if t.lifetimes:
+        if getattr(t, "decl", "struct") == "enum" and not bodies and not t.lifetimes:
+            out.append("%spub enum %s { VfA(u32), VfB }\n" % (ind, t.name))
+        elif t.lifetimes:
             out.append("%spub struct %s%s { pub id: u32, pub seed: u32, pub touched: u32, pub ph: core::marker::PhantomData<(%s)> }\n" % (
                 ind, t.name, gens, ", ".join("&'%s ()" % l for l in lt_names) + ","))
         else:
